@@ -226,11 +226,13 @@ Definition new_taints (ti : list N) (f : fetch) (res : response) (items : list r
         match items, batch with
         | [], _ => []
         | [l], None =>
+          if wrong_kind_single f rd then [] else
           if mem_idx 0 ti then kept_target f (ls_data s) l rd else []
         | _, _ =>
           match rd with
           | JArr [] => []
           | JArr b =>
+            if wrong_kind_batch f b then [] else
             match batch with
             | Some bs => if Nat.eqb (length bs) (length b) then bucket_taints ti bs 0 else []
             | None => if Nat.eqb (length items) (length b) then pairwise_taints ti f (ls_data s) items b 0 else []
